@@ -9,6 +9,9 @@ expr:  ("new",)                      qubit()
        ("tup", [e, e])               tuple display
        ("call", fname, [e...])       call of a function of SIGS
        ("lit", text, ty)             classical literal / expression text (copyable)
+       ("proj", e, sel, ty, drops)   projection `.x` / `[k]` applied directly to a call result or a tuple
+                                     display (not a place): FieldAccessAndDrop / TupleAccessAndDrop;
+                                     ty = type of the result, drops = a linear component is dropped
        ("ifx", cond, e1, e2)         conditional expression `e1 if cond else e2` (the builder stores its
                                      value in a compiler temporary `%tmpN` assigned in both arms)
 stmt:  ("assign", [(name, ty)...], e)    one target -> `a = e`, several -> `a, b = e`
@@ -40,7 +43,18 @@ SIGS = {
     "bor_arr": ([("bor", "arr")], "none"),
     "mk_arr": ([], "arr"),
     "bor_own": ([("bor", "q"), ("own", "q")], "none"),
+    # aggregate results that are only ever projected (never bound to a name)
+    "meas2": ([("own", "q"), ("own", "q")], "tbb"),     # tuple[bool, bool]
+    "peek2": ([("bor", "q"), ("bor", "q")], "tbb"),
+    "meas_b": ([("own", "q")], "B"),                      # struct B{x: bool, y: bool}
+    "pair": ([("own", "q")], "tqi"),                      # tuple[qubit, int]
 }
+
+# aggregate type -> selector -> (type of the projection, are linear components dropped?)
+PROJ = {"tbb": {"[0]": ("bool", False), "[1]": ("bool", False)},
+        "B": {".x": ("bool", False), ".y": ("bool", False)},
+        "tqi": {"[0]": ("q", False), "[1]": ("int", True)},
+        "t": {"[0]": ("q", True), "[1]": ("q", True)}}
 
 HEADER = '''from guppylang import guppy
 from guppylang.std.quantum import qubit, h, cx, measure, discard
@@ -52,6 +66,21 @@ class S:
     a: qubit
     b: qubit
 
+
+@guppy.struct
+class B:
+    x: bool
+    y: bool
+
+
+@guppy.declare
+def meas2(q: qubit @ owned, r: qubit @ owned) -> tuple[bool, bool]: ...
+@guppy.declare
+def peek2(q: qubit, r: qubit) -> tuple[bool, bool]: ...
+@guppy.declare
+def meas_b(q: qubit @ owned) -> B: ...
+@guppy.declare
+def pair(q: qubit @ owned) -> tuple[qubit, int]: ...
 
 @guppy.declare
 def own(q: qubit @ owned) -> None: ...
@@ -116,6 +145,8 @@ def r_expr(e):
         return "True"
     if k == "ifx":
         return f"({r_expr(e[2])} if {r_expr(e[1])} else {r_expr(e[3])})"
+    if k == "proj":
+        return r_expr(e[1]) + e[2]
     raise ValueError(e)
 
 
@@ -241,8 +272,58 @@ class Gen:
             self.consume(full, p, "q")
         return e
 
+    def proj_value(self, env, full, ty):
+        """a projection applied directly to a call result / tuple display, of type ty (q, bool or
+        int); the operand moves or borrows qubit places"""
+        r = self.r.random()
+
+        def qarg(owned_use):
+            p = self.place(env, full, "q", owned_use)
+            if p and owned_use:
+                self.consume(full, p, "q")
+            return ("pl", p, "q") if p else None
+        if ty == "bool":
+            if r < 0.35:
+                a, b = qarg(True), qarg(True)
+                if a and b:
+                    return ("proj", ("call", "meas2", [a, b]), self.r.choice(["[0]", "[1]"]), "bool", False)
+            if r < 0.55:
+                a, b = qarg(False), qarg(False)
+                if a and b and (a != b or self.r.random() < self.naughty):
+                    return ("proj", ("call", "peek2", [a, b]), self.r.choice(["[0]", "[1]"]), "bool", False)
+            if r < 0.8:
+                a = qarg(True)
+                if a:
+                    return ("proj", ("call", "meas_b", [a]), self.r.choice([".x", ".y"]), "bool", False)
+            a = qarg(True)
+            if a:
+                return ("proj", ("tup", [("call", "measure", [a]), ("lit", "1", "int")]), "[0]", "bool", False)
+            return None
+        if ty == "q":
+            if r < 0.4:
+                a = qarg(True)
+                if a:
+                    return ("proj", ("call", "pair", [a]), "[0]", "q", False)
+            if r < 0.75:
+                a = self.value(env, full, "q")
+                return ("proj", ("tup", [a, ("lit", "1", "int")]), "[0]", "q", False)
+            if self.r.random() < self.naughty + 0.03:
+                return ("proj", ("call", "mk_t", []), self.r.choice(["[0]", "[1]"]), "q", True)
+            return None
+        if ty == "int":
+            a = qarg(True)
+            if a and self.r.random() < self.naughty + 0.03:
+                return ("proj", ("call", "pair", [a]), "[1]", "int", True)
+            if a:
+                return ("proj", ("tup", [("lit", "2", "int"), ("call", "measure", [a])]), "[0]", "int", False)
+        return None
+
     def value(self, env, full, ty):
         """an expression of type ty; consumes what it moves"""
+        if ty in ("q", "bool", "int") and self.r.random() < (0.08 if ty == "q" else 0.15):
+            e = self.proj_value(env, full, ty)
+            if e:
+                return e
         r = self.r.random()
         if ty == "q" and self.r.random() < 0.1:
             return self.cond_value(env, full)
@@ -299,6 +380,10 @@ class Gen:
         r = self.r.random()
         if allow_true and r < 0.07:
             return ("true",)
+        if r < 0.12:
+            e = self.proj_value(env, full, "bool")
+            if e:
+                return e
         if r < 0.25:
             p = self.place(env, full, "q", True)
             if p:
